@@ -82,6 +82,13 @@ def satOwn (data : List Byte) : List CallObs → List Byte → Bool
       else true
     keep && rep && satOwn data rest t'
 
+/-- every fault the caller sees is the next one the reader produced, in order; only Interrupted may be missing (C06: "an
+    Interrupted read may instead be retried transparently") -/
+def faultsOk : List String → List String → Bool
+  | [], _ => true
+  | _ :: _, [] => false
+  | s :: ss, t :: ts => if s == t then faultsOk ss ts else if t == "err2" then faultsOk (s :: ss) ts else false
+
 /-- C12 on the implementation's log: in each read_frame call, every reader call happens only while the buffered
     bytes hold no complete frame, with a non-empty destination no larger than the free space; nothing is read after
     a result is available -/
@@ -169,7 +176,7 @@ def check (oc : Bool) (pre impl : List String) : Option (List String × Bool) :=
     -- every reader fault comes back with the kind the reader produced, in order
     let scripted := s.racts.filterMap fun a => match a with | .err k => some s!"err{k}" | .panic => some "panic" | _ => none
     let seen := faultKinds icallsS
-    if faults && seen != scripted.take seen.length then v := "UNSAT C06" :: v
+    if faults && !faultsOk seen scripted then v := "UNSAT C06" :: v
   | none =>
     -- rejecting deframers: own errors repeat and leave the unread bytes intact (compared against the model only)
     pure ()
